@@ -40,17 +40,17 @@ prop('C02', contracts=[],
      technique='not decided deductively yet: bounded scheduler/farm simulation on the real code (labelled bounded)',
      explanation='BOUNDED ONLY: schedule.update/organize and the closure at quiescence are explored by the simulation (all event sequences up to the stated depth on the stated graphs); no obligation is discharged for this property',
      assumptions=[A1, A2, A3, A4, A5])
-prop('C03', contracts=['c01_release', 'c03_farm'],
+prop('C03', contracts=['c01_release', 'c03_farm', 'c04_complete'],
      technique=TECH + 'once-only release (next_job_batch), message fan-out (_put), placement (Hand.do) and farm.dispatch with loop invariants; reply ledger by the bounded simulation',
      explanation='PROVED: next_job_batch never releases a target the job already has in doing (post.once) and moves each released target to do/doing exactly once (post.conserve.*); find returns the queued node (or the tree node when the job left the queue); _put appends exactly one task message carrying the job id, run id, target and factory of the unit and changes nothing else; Hand.do records the unit as busy and sends the task to that worker only; dispatch hands each idle worker at most one task, only to workers that were listed idle, removes them from the idle list, and never forgets released work: a node with something in `do` is still in farm._jobs afterwards, also when rerunid()/the database raises inside the loop (bare except). BOUNDED ONLY: every reply applied exactly once, crew view = in flight, exact message counts per job.',
      trusted_base=[ELEMENT], assumptions=[A1, A2, A4])
-prop('C04', contracts=['c01_release'],
-     technique=TECH + 'conservation/queue obligations on next_job_batch; quiescence by the bounded simulation',
-     explanation='PROVED: next_job_batch changes no queue membership and releases only queued nodes (post.only-queued, frame). BOUNDED ONLY: idle => empty queue after every event (J2), release liveness per dispatch, run-to-quiescence.',
+prop('C04', contracts=['c01_release', 'c04_complete'],
+     technique=TECH + 'queue invariant J2 (no idle entry) proved for schedule.complete and farm.Hand._res, conservation on next_job_batch; quiescence by the bounded simulation',
+     explanation='PROVED: next_job_batch changes no queue membership and releases only queued nodes; schedule.complete removes the job from the queue exactly when nothing of it is pending or executing any more; after farm.Hand._res has applied a reply (success, failure or invalid) no queue entry is idle (J2 preserved: the purge of a failure is followed by the removal of every entry it emptied). BOUNDED ONLY: J2 for organize/build/defer/update, release liveness per dispatch, run-to-quiescence for every reply order.',
      trusted_base=[ELEMENT], assumptions=[A1, A2, A5])
-prop('C05', contracts=['c05_purge'],
-     technique=TECH + 'recursive contract and loop invariant of schedule.purge; bounded simulation for Hand._res and the history entry',
-     explanation='PROVED for every tree and state: purge withdraws the target from todo/doing/do of every descendant, changes no other target, no non-descendant, only removes (post.withdrawn.*, post.frame.*, post.only-removes.*). BOUNDED ONLY: Hand._res calls complete then purge and never update on non-success, one history entry with the outcome.',
+prop('C05', contracts=['c05_purge', 'c04_complete'],
+     technique=TECH + 'recursive contract and loop invariant of schedule.purge; Hand._res, _translate and schedule.complete under contract; bounded simulation as stand-in',
+     explanation='PROVED for every tree and state: purge withdraws the target from todo/doing/do of every descendant, changes no other target, no non-descendant, only removes; Hand._translate maps None/True/False to invalid/success/failure; Hand._res on a non-success reply never calls schedule.update, lets no node\'s pending set grow, leaves every other target untouched, and records exactly one history entry with the outcome, target, task and run id (schedule.complete). BOUNDED ONLY: the worker side (cluster.execute mapping exceptions to outcomes), interplay across arrival orders.',
      trusted_base=[ELEMENT, 'desc* as an uninterpreted relation constrained by true facts of the least fixed point (reflexive, step, inversion witness)'],
      assumptions=[A1, A4, A5])
 prop('C06', contracts=[],
